@@ -1133,7 +1133,7 @@ class MultiTestResult(TestResult):
     failfast = property(_get_failfast, _set_failfast)
 
     def _get_shouldStop(self):
-        return any(self._dispatch("__getattr__", "shouldStop"))
+        return any(result.shouldStop for result in self._results)
 
     def _set_shouldStop(self, value):
         # Called because we subclass TestResult. Probably should not do that.
